@@ -4,7 +4,7 @@ import z3
 from z3 import And, Or, Not, Implies, If, IntVal, RealVal, BoolVal
 from ..pyvc import sorts as so
 from ..pyvc.sorts import fresh, I, R, B
-from ..pyvc.values import SList, SDict, SSet, SObj, TupleSpec, NONE, PyConst, Callback, FuncRef
+from ..pyvc.values import SList, SDict, SSet, SObj, TupleSpec, NONE, PyConst, Callback, FuncRef, SDictOfLists
 from ..pyvc.lib import SGraph
 
 
@@ -105,3 +105,38 @@ def graph(directed=False, weight_labels=(), node_labels=(), positive=True):
 
 def funcref(q):
     return lambda run, name, **kw: FuncRef(q)
+
+
+def dict_of_lists(ksort, esort):
+    def mk(run, name, empty=False, **kw):
+        K, E = sort_of(ksort), sort_of(esort)
+        if empty:
+            return SDictOfLists(K, E, dom=z3.K(K, BoolVal(False)), lens=z3.K(K, IntVal(0)), name=name)
+        return SDictOfLists(K, E, name=name)
+    return mk
+
+
+def distinct_list(esort):
+    """list without repeated elements (e.g. a collection of distinct nodes): carries a position function"""
+    def mk(run, name, empty=False, **kw):
+        E = sort_of(esort)
+        l = SList(E, name=name)
+        posf = z3.Function('%s_pos_%d' % (name, so.Mode.gen), E, I)
+        memf = z3.Function('%s_mem_%d' % (name, so.Mode.gen), E, B)
+        l.posf = lambda x: posf(x)
+        l.memberf = lambda x: memf(x)
+        run.assume(l.wellformed())
+        run.assume(so.forall_idx(l.n, lambda i: And(memf(l.a[i]), posf(l.a[i]) == i)))
+        run.assume(so.forall(E, lambda x: Implies(memf(x), And(0 <= posf(x), posf(x) < l.n, l.a[posf(x)] == x))))
+        return l
+    return mk
+
+
+def tuple_list(specname, fields):
+    def mk(run, name, empty=False, **kw):
+        fs = [(fn, (('opt', sort_of(fsort[1])) if isinstance(fsort, tuple) else sort_of(fsort))) for fn, fsort in fields]
+        spec = TupleSpec(specname, fs)
+        if empty:
+            return SList(spec, n=IntVal(0), a=fresh(name + '_a', z3.ArraySort(I, spec.zsort())), name=name)
+        return SList(spec, name=name)
+    return mk
